@@ -133,6 +133,26 @@ def eval_case(case):
             if getattr(val, '__name__', None) != key:
                 fail('registry_name_resolves_to_class',
                      f"{case['registry']}['{key}'] is {getattr(val, '__name__', val)}")
+        # the documented way to add a class of one's own: after
+        # register_*(cls) the class is found under its own name
+        reg_fn = {'CODES': config.register_code, 'DECODERS': config.register_decoder,
+                  'ERROR_MODELS': config.register_error_model}[case['registry']]
+        base = {'CODES': config.CODES['Toric2DCode'], 'DECODERS': config.DECODERS['MatchingDecoder'],
+                'ERROR_MODELS': config.ERROR_MODELS['PauliErrorModel']}[case['registry']]
+        mine = type('MyVerif' + case['registry'].title().replace('_', ''), (base,), {})
+        before = dict(reg)
+        reg_fn(mine)
+        if reg.get(mine.__name__) is not mine:
+            added = sorted(k for k in reg if k not in before or reg[k] is not before[k])
+            fail('registered_class_found_under_its_name',
+                 f"after {reg_fn.__name__}({mine.__name__}) the registry has no entry "
+                 f"'{mine.__name__}'; changed entries: {added}")
+        for k in list(reg):
+            if k not in before:
+                del reg[k]
+            elif reg[k] is not before[k]:
+                reg[k] = before[k]
+        n += 1
         import panqec.codes as pc
         if case['registry'] == 'CODES':
             for name in domain.CODE_CLASSES:
